@@ -158,11 +158,20 @@ def r_variant_tree(model, rep):
     if ok:
         ng = facts.non_gate_guards(app[0])
         uid = app[0].value[2][0]
-        ok = len(ng) == 1 and ng[0][1] and ng[0][0][0] == "cmp" and ng[0][0][1] == ("not in",) and ng[0][0][2][0] == uid \
+        ngc = [facts.canon_guard_pair(g) for g in ng]      # (``if uid in children: continue`` and ``if uid not in children:`` alike)
+        if not ngc:
+            # the selection spelled as "skip, else append": the append happens when no skip of the current version was taken
+            conts = [c for c in cx.events if c.kind == "continue" and c.loops == app[0].loops and c.seq < app[0].seq and facts.active_at(c, V)]
+            if len(conts) == 1:
+                cg = facts.non_gate_guards(conts[0])
+                if len(cg) == 1:
+                    t_, p_ = facts.canon_guard_pair(cg[0])
+                    ngc = [(t_, not p_)]
+        ok = len(ngc) == 1 and not ngc[0][1] and ngc[0][0][0] == "cmp" and ngc[0][0][1] == ("in",) and ngc[0][0][2][0] == uid \
             and app[0].loops[-1][1] == sec and uid == ("elem", sec, app[0].loops[-1][0])
         msg = "top-level variants must be exactly the entries whose UID is not a collected child UID"
         if ok:
-            cset = ng[0][0][2][1]
+            cset = ngc[0][0][2][1]
             ok = False
             msg = "child UIDs must be collected as '%s-%s' % (entry['uid'], child) over every entry's 'variants' list"
             for c in facts.collections_of(cx, cset):
@@ -219,7 +228,7 @@ def r_paths(model, rep):
             arch = ("elem", la[0][1], la[0][0])
             name = ("elem", lf[0][1], lf[0][0])
             val = ("call", ("attr", ("call", ("global", "getattr"), (S, name), ()), "get"), (arch, ("const", None)), ())
-            ok = e.path == [name, arch] and e.value == val and [(g[0], g[1]) for g in e.guards] == [(val, True)]
+            ok = e.path == [name, arch] and e.value == val and facts.canon_guards(e.guards) == frozenset([facts.canon_guard((val, True))])
             msg = "paths must be written as out[category][arch] = getattr(self, category).get(arch), skipping empty values only"
     rep.ob("R-PATHS", "VariantPaths.serialize", ok, site=cx.site(f.node), msg="" if ok else msg)
     # reader
@@ -241,7 +250,7 @@ def r_paths(model, rep):
             name = ("elem", lf[0][1], lf[0][0])
             val = ("call", ("attr", ("call", ("attr", IN, "get"), (name, ("dict", ())), ()), "get"), (arch, ("const", None)), ())
             ok = e.target == ("sub", ("call", ("global", "getattr"), (S, name), ()), arch) and e.value == val \
-                and [(g[0], g[1]) for g in e.guards] == [(val, True)]
+                and facts.canon_guards(e.guards) == frozenset([facts.canon_guard((val, True))])
             msg = "paths must be read as getattr(self, category)[arch] = doc.get(category, {}).get(arch), skipping empty values only"
     rep.ob("R-PATHS", "VariantPaths.deserialize", ok, site=cx.site(f.node), msg="" if ok else msg)
 
